@@ -641,3 +641,100 @@ def lift_ifexp_calls(f, callee_names):
     g = dataclasses.replace(f)
     g.node = node
     return g
+
+
+def dissolve_pure_temps(f):
+    """Copy of Func `f` in which a local that is bound exactly once to a call-free arithmetic expression over names
+    (`next_dist = dist + 1`) is replaced by that expression where it is used, when every use lies in the block of the
+    binding (after it) and no name of the expression is rebound there."""
+    node = copy.deepcopy(f.node)
+    changed = False
+    a = node.args
+    params = {x.arg for x in a.posonlyargs + a.args + a.kwonlyargs}
+    stores: dict[str, int] = {}
+    for n in ast.walk(node):
+        if isinstance(n, ast.Name) and isinstance(n.ctx, (ast.Store, ast.Del)):
+            stores[n.id] = stores.get(n.id, 0) + 1
+
+    def pure(e):
+        return all(isinstance(x, (ast.BinOp, ast.UnaryOp, ast.Name, ast.Constant, ast.operator, ast.unaryop, ast.expr_context)) for x in ast.walk(e)) \
+            and isinstance(e, (ast.BinOp, ast.UnaryOp))
+
+    def blocks(n):
+        for fld in ("body", "orelse", "finalbody"):
+            b = getattr(n, fld, None)
+            if isinstance(b, list) and b and isinstance(b[0], ast.stmt):
+                yield b
+        if isinstance(n, ast.Try):
+            for h in n.handlers:
+                yield h.body
+        if isinstance(n, ast.Match):
+            for c in n.cases:
+                yield c.body
+
+    def walk_blocks(n):
+        for b in blocks(n):
+            yield b
+            for s in b:
+                if not isinstance(s, (ast.FunctionDef, ast.AsyncFunctionDef, ast.ClassDef)):
+                    yield from walk_blocks(s)
+
+    for blk in list(walk_blocks(node)):
+        i = 0
+        while i < len(blk):
+            s = blk[i]
+            if isinstance(s, ast.Assign) and len(s.targets) == 1 and isinstance(s.targets[0], ast.Name) and stores.get(s.targets[0].id) == 1 \
+                    and s.targets[0].id not in params and pure(s.value):
+                x = s.targets[0].id
+                rhs_names = {n.id for n in ast.walk(s.value) if isinstance(n, ast.Name)}
+                rest = blk[i + 1:]
+                uses_in_rest = sum(1 for r in rest for n in ast.walk(r) if isinstance(n, ast.Name) and n.id == x)
+                uses_total = sum(1 for n in ast.walk(node) if isinstance(n, ast.Name) and n.id == x) - 1
+                rebound = any(isinstance(n, ast.Name) and n.id in rhs_names and isinstance(n.ctx, (ast.Store, ast.Del)) for r in rest for n in ast.walk(r))
+                if uses_in_rest == uses_total and not rebound and x not in rhs_names:
+                    class T(ast.NodeTransformer):
+                        def visit_Name(self, n):
+                            return ast.copy_location(copy.deepcopy(s.value), n) if n.id == x and isinstance(n.ctx, ast.Load) else n
+                    for k in range(i + 1, len(blk)):
+                        blk[k] = T().visit(blk[k])
+                    del blk[i]
+                    changed = True
+                    continue
+            i += 1
+    if not changed:
+        return f
+    ast.fix_missing_locations(node)
+    g = dataclasses.replace(f)
+    g.node = node
+    return g
+
+
+def search_loops(f):
+    """Copy of Func `f` in which `return any(P(x) for x in IT)` reads `for x in IT: if P(x): return True` / `return False`
+    (and `return all(...)` correspondingly)."""
+    node = copy.deepcopy(f.node)
+    changed = False
+    for blk in [b for n in ast.walk(node) for b in ([n.body] if isinstance(getattr(n, "body", None), list) else [])
+                + ([n.orelse] if isinstance(getattr(n, "orelse", None), list) else [])]:
+        for i, s in enumerate(blk):
+            if isinstance(s, ast.Return) and isinstance(s.value, ast.Call) and isinstance(s.value.func, ast.Name) and s.value.func.id in ("any", "all") \
+                    and len(s.value.args) == 1 and isinstance(s.value.args[0], (ast.GeneratorExp, ast.ListComp)) and len(s.value.args[0].generators) == 1:
+                g = s.value.args[0].generators[0]
+                is_any = s.value.func.id == "any"
+                test = s.value.args[0].elt if is_any else negate(s.value.args[0].elt)
+                inner = [ast.If(test, [ast.Return(ast.Constant(is_any))], [])]
+                for c in reversed(g.ifs):
+                    inner = [ast.If(c, inner, [])]
+                loop = ast.For(g.target, g.iter, inner, [], None)
+                tail = ast.Return(ast.Constant(not is_any))
+                for n in list(ast.walk(loop)) + [tail]:
+                    ast.copy_location(n, s)
+                blk[i : i + 1] = [loop, tail]
+                changed = True
+                break
+    if not changed:
+        return f
+    ast.fix_missing_locations(node)
+    g2 = dataclasses.replace(f)
+    g2.node = node
+    return g2
